@@ -367,22 +367,9 @@ func RunRandCommitMask(p *Prog, r *Report) {
 	}
 	for _, fn := range fns {
 		pkg := FuncPkg(fn).Path()
-		var hint *ssa.Call
-		for _, b := range fn.Blocks {
-			for _, ins := range b.Instrs {
-				c, ok := ins.(*ssa.Call)
-				if !ok {
-					continue
-				}
-				if cal := c.Call.StaticCallee(); cal != nil && strings.HasPrefix(funcBaseName(cal), "NewHint") {
-					for _, a := range c.Call.Args {
-						if strings.Contains(Desc(a), "internal/hints.Randomize") {
-							hint = c
-						}
-					}
-				}
-			}
-		}
+		// the Randomize hint call, in Commit itself or in a same-package helper that Commit calls (then the call of
+		// the helper is the site, and inside the helper the hint call must dominate every successful return)
+		hint := findMaskSite(p, fn, 0)
 		if hint == nil {
 			r.Fail("RAND-MASK", pkg, FuncName(fn), "mask-hint", p.Pos(FuncPos(fn)), "Commit no longer appends a Randomize hint output (random mask) to the committed wires")
 			continue
@@ -401,4 +388,62 @@ func RunRandCommitMask(p *Prog, r *Report) {
 			r.Fail("RAND-MASK", pkg, FuncName(fn), "mask-hint", p.Pos(hint.Pos()), "a successful return of Commit ("+bad+") bypasses the creation of a fresh Randomize mask: later commitments reuse a mask or have none")
 		}
 	}
+}
+
+func isRandomizeHint(c *ssa.Call) bool {
+	cal := c.Call.StaticCallee()
+	if cal == nil || !strings.HasPrefix(funcBaseName(cal), "NewHint") {
+		return false
+	}
+	for _, a := range c.Call.Args {
+		if strings.Contains(Desc(a), "internal/hints.Randomize") {
+			return true
+		}
+	}
+	return false
+}
+
+// findMaskSite: the call instruction of fn that draws the mask: the Randomize hint call itself, or the call of a
+// same-package helper in which such a call dominates every successful return.
+func findMaskSite(p *Prog, fn *ssa.Function, depth int) *ssa.Call {
+	for _, b := range fn.Blocks {
+		for _, ins := range b.Instrs {
+			c, ok := ins.(*ssa.Call)
+			if !ok {
+				continue
+			}
+			if isRandomizeHint(c) {
+				return c
+			}
+		}
+	}
+	if depth >= 2 {
+		return nil
+	}
+	for _, b := range fn.Blocks {
+		for _, ins := range b.Instrs {
+			c, ok := ins.(*ssa.Call)
+			if !ok {
+				continue
+			}
+			cal := c.Call.StaticCallee()
+			if cal == nil || cal.Blocks == nil || FuncPkg(cal) == nil || FuncPkg(fn) == nil || FuncPkg(cal).Path() != FuncPkg(fn).Path() {
+				continue
+			}
+			inner := findMaskSite(p, cal, depth+1)
+			if inner == nil {
+				continue
+			}
+			ok2 := true
+			for _, rb := range successReturnBlocks(p, cal) {
+				if rb != inner.Block() && !inner.Block().Dominates(rb) {
+					ok2 = false
+				}
+			}
+			if ok2 {
+				return c
+			}
+		}
+	}
+	return nil
 }
